@@ -2,5 +2,5 @@ SPECIFICATION Spec
 CONSTANTS
   Emit = FALSE
   Wide = FALSE
-INVARIANTS ThOkPaysFee ThPaddingCovers ThTrichotomy ThNoInputs ThSupportIsStructural ThAmountsSane
+INVARIANTS ThOkPaysFee ThPaddingCovers ThTrichotomy ThNoInputs ThSupportIsStructural ThCountsIgnoreProposedVersion ThAmountsSane
 CHECK_DEADLOCK FALSE
